@@ -15,7 +15,7 @@ from ..gen import cfggen
 from ..translate import hashflags
 
 PROP = "C01"
-MODULES = ["XpmVerif.Properties.C01"]
+MODULES = ["XpmVerif.Properties.C01", "XpmVerif.Properties.C01Cache"]
 GOLDEN = common.VERIF / "corpus" / "golden_identifiers.json"
 
 
